@@ -243,3 +243,47 @@ B('g14_public_helper_unprotected_mtime', ['C14'], 'R14.c',
   # a *referenced*, non-private function on the request path doing file I/O without the 403 mapping
   (ST, "        bfr = build_file_response\n        resp = bfr(full_path,\n", "        file_age(full_path)\n        bfr = build_file_response\n        resp = bfr(full_path,\n"),
   (ST, _CLS_ROUTE, "def file_age(path):\n    return datetime.utcnow() - get_file_mtime(path)\n\n\n" + _CLS_ROUTE))
+
+# ------------------------------------------------------------------ further equivalent spellings
+T('g14_refusals_one_condition_each', ['C14'],
+  (ST, _REFUSALS,
+   "    if limit_root and rel_path.startswith('/'):\n"
+   "        raise ValueError('expected relative path, not %r' % path)\n"
+   "    if limit_root and IS_WINDOWS and ':' in path:\n"
+   "        raise ValueError('unexpected colon in path: %r' % path)\n"
+   "    outside = limit_root and rel_path.startswith(os.pardir)\n"
+   "    if outside:\n"
+   "        raise ValueError('attempted to access beyond root directory')\n"))
+B('g14_refusal_extra_conjunct', ['C14'], 'R14.a',
+  (ST, _REFUSALS,
+   "    if limit_root and rel_path.startswith('/'):\n"
+   "        raise ValueError('expected relative path, not %r' % path)\n"
+   "    if limit_root and IS_WINDOWS and ':' in path:\n"
+   "        raise ValueError('unexpected colon in path: %r' % path)\n"
+   "    if limit_root and IS_WINDOWS and rel_path.startswith(os.pardir):\n"
+   "        raise ValueError('attempted to access beyond root directory')\n"))
+B('g14_refusal_disjunction_with_limit_root', ['C14'], 'R14.a',
+  # (not limit_root) or absolute: refuses when limit_root is off, lets absolute paths through otherwise
+  (ST, "        if rel_path.startswith('/'):\n", "        if not (limit_root or rel_path.startswith('/')):\n"))
+T('g14_normalised_named_twice', ['C14'],
+  (ST, "    rel_path = os.path.normpath(path)\n", "    normalized = os.path.normpath(path)\n    rel_path = normalized\n"),
+  (ST, "        if rel_path.startswith('/'):\n", "        if normalized.startswith('/'):\n"))
+B('g14_normalised_alias_rebound', ['C14'], 'R14.a',
+  (ST, "    rel_path = os.path.normpath(path)\n", "    normalized = os.path.normpath(path)\n    rel_path = normalized\n"),
+  (ST, "    for sr in search_paths:\n", "    rel_path = rel_path or path\n    for sr in search_paths:\n"))
+T('g14_first_regular_file_next', ['C14'],
+  (ST, _LOOP, "    candidates = (pjoin(sr, rel_path) for sr in search_paths)\n    return next((c for c in candidates if isfile(c)), None)\n"))
+B('g14_first_existing_next', ['C14'], 'R14.a',
+  (ST, _LOOP, "    candidates = (pjoin(sr, rel_path) for sr in search_paths)\n    return next((c for c in candidates if os.path.exists(c)), None)\n"))
+T('g14_error_named_before_raise', ['C14'],
+  (ST, "        except (ValueError, IOError, OSError):\n            raise Forbidden(is_breaking=False)\n        bfr = build_file_response",
+       "        except (ValueError, IOError, OSError):\n            refusal = Forbidden(is_breaking=False)\n            raise refusal\n        bfr = build_file_response"),
+  (ST, "    if not isfile(path):\n        raise NotFound(is_breaking=False)\n", "    if not isfile(path):\n        missing = NotFound(is_breaking=False)\n        raise missing\n"))
+B('g14_named_error_breaking', ['C14'], 'R14.b',
+  (ST, "    if not isfile(path):\n        raise NotFound(is_breaking=False)\n", "    if not isfile(path):\n        missing = NotFound()\n        raise missing\n"))
+T('g14_not_newer_as_negated_gt', ['C14'],
+  (ST, "        if mtime <= cached_modify_time:\n            resp.status_code = 304\n            resp.cache_control.max_age = cache_timeout\n            return resp\n",
+       "        if mtime > cached_modify_time:\n            pass\n        else:\n            resp.status_code = 304\n            resp.cache_control.max_age = cache_timeout\n            return resp\n"))
+B('g14_not_newer_negated_lt', ['C14'], 'R14.d',
+  (ST, "        if mtime <= cached_modify_time:\n            resp.status_code = 304\n            resp.cache_control.max_age = cache_timeout\n            return resp\n",
+       "        if mtime < cached_modify_time:\n            pass\n        else:\n            resp.status_code = 304\n            resp.cache_control.max_age = cache_timeout\n            return resp\n"))
